@@ -104,7 +104,8 @@ func (g *generator) nextTag() string {
 }
 
 var codeLists = []string{"IMM01", "IMM", "ALL", "CTOR01", "CTOR", "CTOR03", "TONL01", "TONL", "PKGO", "PKGO01", "imm02", "Ctor02, IMM03", "IMM04 because reasons", "XYZ", "TONL02, TONL03", "PKGO02,PKGO03", "IMPL", "all",
-	"IMM01 legacy code, all callers audited", "CTOR01 see the ticket, IMM tracked elsewhere", "TONL02 (temporary, ALL of this goes away)", "PKGO02 reviewed,approved, imm01 too", "IMM03, CTOR01 reason, TONL"}
+	"IMM01 legacy code, all callers audited", "CTOR01 see the ticket, IMM tracked elsewhere", "TONL02 (temporary, ALL of this goes away)", "PKGO02 reviewed,approved, imm01 too", "IMM03, CTOR01 reason, TONL",
+	"IMM0", "IM", "CTO", "I", "TONL0, PKG", "A, AL"}
 
 var hotCodes = []string{"PKGO01", "TONL01", "PKGO", "TONL", "ALL", "IMM01", "CTOR01", "IMM", "CTOR", "pkgo01", "Tonl01, PKGO01"}
 
@@ -390,7 +391,9 @@ func (g *generator) allowListR(r *rng.R, users []*gpkg) []string {
 func (g *generator) typeDecl(t *gtype) []string {
 	var doc []string
 	if t.immutable {
-		doc = append(doc, "// @immutable")
+		doc = append(doc, "// @immutable"+[]string{"", "", " - the fields are filled in by the @constructor functions only", " (see @testonly helpers, @packageonly and @implements elsewhere)"}[g.xr.Intn(4)])
+	} else {
+		g.xr.Intn(4)
 	}
 	if len(t.ctors) > 0 {
 		sep := []string{", ", ",", " , ", ",\t"}[g.r.Intn(4)]
@@ -436,7 +439,7 @@ func (g *generator) typeDecl(t *gtype) []string {
 		if t.mutable && t.ctorSplit {
 			multi = "\t// counters\n\t// @mutable\n\tHits, Misses int\n"
 		}
-		body = t.name + " struct {\n\tX     int\n\tItems []int\n\tM     map[string]int\n" + cache + multi + "\tAny   any\n}"
+		body = t.name + " struct {\n\tX     int\n\tItems []int\n\tM     map[string]int\n" + cache + multi + "\tAny   any\n\tCells  [3]int\n\tDigest *[4]byte\n\t// an embedded field has no name of its own to be marked\n\t// @mutable\n\tEmb\n}"
 	}
 	d := strings.Join(doc, "\n")
 	if d != "" {
@@ -467,6 +470,10 @@ type scopeVar struct {
 func (g *generator) candidates(p *gpkg, t *gtype, v, w string) []string {
 	tr := func(site int) string { return g.typeRef(p, t, site) }
 	var c []string
+	embRef := "Emb"
+	if t.pkg != p {
+		embRef = p.alias[t.pkg] + ".Emb"
+	}
 	if t.kind == 0 {
 		c = append(c,
 			v+".X = 1", w+".X = 2", v+".X += 3", v+".X++", w+".X--", v+".Items[0] = 4", v+`.M["k"] = 5`,
@@ -477,6 +484,7 @@ func (g *generator) candidates(p *gpkg, t *gtype, v, w string) []string {
 			"_ = struct{ F "+tr(8)+" }{}",
 			v+".Misses++", v+".Hits = 1", w+".Misses += 2",
 			v+".X, "+v+".Items[0] = 1, 2", v+".Items[1], "+v+".X = 3, 4", v+".X, "+w+".Cache, "+v+".Items[2] = 5, 6, 7",
+			v+".Cells[0] = 1", v+".Digest[1] = 2", v+".Cells[2]++", v+".Emb = "+embRef+"{}", v+".Emb.E = 3", v+".E++",
 			v+".X &^= 1", v+".X <<= 2", w+".X |= 3", v+".X %= 4", v+".X ^= 5", w+".X >>= 1", v+".X *= 2", v+".X /= 3", v+".X &= 7",
 			// a reported literal that contains further instantiations
 			"_ = "+tr(-1)+"{Any: "+tr(-1)+"{}}", "_ = &"+tr(-1)+"{Any: new("+tr(12)+")}", "_ = "+tr(-1)+"{Any: func() any { var z "+tr(-1)+"; return z }()}",
@@ -576,6 +584,9 @@ func (g *generator) body(p *gpkg, vars []scopeVar, extra []string, n int) []stri
 			switch r.Intn(3) {
 			case 0: // standalone before the statement
 				stmts = append(stmts, g.ignoreComment())
+				if r.Chance(1, 3) {
+					stmts = append(stmts, g.ignoreComment()) // two directives in one comment group: both count
+				}
 				if g.o.BlankLines && g.lr.Chance(1, 2) {
 					stmts = append(stmts, "") // a blank line between the comment and the statement it covers
 				}
@@ -778,6 +789,7 @@ func (g *generator) renderPkg(m *Module, p *gpkg, decls []*gpkg) {
 	add("func pairOf() (int, int) { return 1, 2 }")
 	add("var PairA, PairB = pairOf() " + g.nextTag())
 	add("type Free struct {\n\tX     int\n\tItems []int\n\tAny   any\n}")
+	add("// Emb is embedded by the generated struct types.\ntype Emb struct{ E int }")
 	// methods whose receiver is an interface literal (not a named type)
 	add("var Sink interface{ Emit(int) int }")
 	add("type Holder struct {\n\tCloser interface{ Close() error }\n}")
@@ -896,6 +908,15 @@ func (g *generator) renderPkg(m *Module, p *gpkg, decls []*gpkg) {
 			add("type recvAlias" + t.name + " = " + t.name)
 			add("func (" + recv + " *recvAlias" + t.name + ") ViaAliasRecv() {\n" + indent([]string{"*" + recv + " = " + t.name + "{} " + g.nextTag(), recv + ".X = 2 " + g.nextTag()}) + "}")
 			add("func (" + recv + " *(" + t.name + ")) ViaParenRecv() {\n" + indent([]string{"*" + recv + " = " + t.name + "{} " + g.nextTag(), recv + ".X++ " + g.nextTag()}) + "}")
+			add("// ViaParenStar has its whole receiver type in parentheses.\nfunc (" + recv + " (*" + t.name + ")) ViaParenStar() {\n" + indent([]string{"*" + recv + " = " + t.name + "{} " + g.nextTag(), recv + ".X-- " + g.nextTag()}) + "}")
+			// annotated methods declared through an alias of the receiver type
+			if g.o.NoAnnotations {
+				add("// for tests\nfunc (" + recv + " *recvAlias" + t.name + ") AliasRecvForTest() {}")
+				add("// internal\nfunc (" + recv + " recvAlias" + t.name + ") AliasRecvInternal() {}")
+			} else {
+				add("// @testonly\nfunc (" + recv + " *recvAlias" + t.name + ") AliasRecvForTest() {}")
+				add("// @packageonly\nfunc (" + recv + " recvAlias" + t.name + ") AliasRecvInternal() {}")
+			}
 		} else {
 			add("func (" + recv + " *(" + t.name + ")) ViaParenRecv() {\n" + indent([]string{"*" + recv + "++ " + g.nextTag(), "*" + recv + " = 7 " + g.nextTag()}) + "}")
 		}
@@ -921,6 +942,10 @@ func (g *generator) renderPkg(m *Module, p *gpkg, decls []*gpkg) {
 		}
 	}
 	if p.hidden {
+		// constructor-only types that are not structs: every composite literal of them is an instantiation too
+		add("// Tags is a constructor-only map type.\n// @constructor NewTags\ntype Tags map[string]int\n\nfunc NewTags() Tags { return Tags{\"a\": 1} " + g.nextTag() + " }")
+		add("// Pair is a constructor-only array type, IDs a constructor-only slice type.\n// @constructor NewPair\ntype Pair [2]int\n\n// @constructor NewIDs\ntype IDs []int\n\nfunc NewPair() *Pair { return &Pair{1, 2} " + g.nextTag() + " }\n\nfunc NewIDs() IDs { return IDs{1} " + g.nextTag() + " }")
+		add("func touchTags() {\n" + indent([]string{"_ = Tags{} " + g.nextTag(), "_ = []Pair{{1, 2}} " + g.nextTag(), "_ = &IDs{3} " + g.nextTag(), "var zt Tags " + g.nextTag(), "_ = zt", "_ = new(Pair) " + g.nextTag()}) + "}")
 		add("// hidden is unexported, its values are not.\n// @immutable\n// @constructor newHidden\ntype hidden struct {\n\tX     int\n\tItems []int\n}")
 		add("func newHidden() *hidden { return &hidden{X: 1} " + g.nextTag() + " }")
 		add("var Default = newHidden()")
@@ -989,7 +1014,7 @@ func (g *generator) renderPkg(m *Module, p *gpkg, decls []*gpkg) {
 			if t.pmeth {
 				ex = append(ex, call+".Internal()", "_ = "+call+".Internal", call+".\n\tInternal()", "¤PKGO03¤"+call+".Internal()", "¤PKGO02¤"+call+".Internal()")
 			}
-			ex = append(ex, call+".Mutate()")
+			ex = append(ex, call+".Mutate()", call+".AliasRecvForTest()", call+".AliasRecvInternal()", call+".ViaParenStar()")
 		}
 		for _, f := range p.funcs {
 			if f.ret != nil {
@@ -1009,6 +1034,7 @@ func (g *generator) renderPkg(m *Module, p *gpkg, decls []*gpkg) {
 			if im.hidden {
 				a := p.alias[im]
 				ex = append(ex, a+".Default.X = 2", a+".Current().X++", a+".Current().Items[0] = 3", a+".Default.Items = nil", "_ = "+a+".Default.X", "h§ := "+a+".Current(); h§.X -= 1",
+					"_ = "+a+".Tags{\"k\": 2}", "_ = []"+a+".Pair{{3, 4}}", "_ = &"+a+".IDs{5}", "_ = map[string]"+a+".Pair{\"p\": {}}", "var zt§ "+a+".Tags; _ = zt§", "_ = new("+a+".IDs)",
 					"_ = "+a+".HiddenRec{}", "_ = new("+a+".HiddenRec)", "var hr§ "+a+".HiddenRec; _ = hr§", "_ = "+a+".HiddenList{{X: 1}}", "_ = &"+a+".HiddenRec{X: 2}",
 					a+".Current().Run()", a+".Default.Run()", "_ = "+a+".Default.Run", a+".Current().Probe()", a+".Default.Probe()")
 			}
@@ -1410,6 +1436,11 @@ func (g *generator) renderPkg(m *Module, p *gpkg, decls []*gpkg) {
 					// an import that carries no facts, listed ahead of the annotated packages
 					used = append([]string{"\t_ \"unsafe\""}, used...)
 				}
+				if g.o.Ignores && r.Chance(1, 6) {
+					// inside the import block: it covers that line, not the declaration that follows the imports
+					used = append([]string{}, used...)
+					used[len(used)-1] += " // @ignore IMM01, IMM03, CTOR01, TONL02"
+				}
 				if rawImports {
 					for k := range used {
 						used[k] = strings.ReplaceAll(used[k], "\"", "`")
@@ -1569,6 +1600,14 @@ func (g *generator) renderPkg(m *Module, p *gpkg, decls []*gpkg) {
 		// external test package
 		self := p.path
 		m.Files[dir+"/export_test.go"] = "package " + p.name + "\n\n// DeclInTest is declared in a test file of the package.\n// @immutable\n// @constructor NewDeclInTest\ntype DeclInTest struct{ X int }\n\nfunc NewDeclInTest() *DeclInTest { return &DeclInTest{} }\n"
+		// file names with characters that mean something in a regular expression
+		m.Files[dir+"/gen_(v1)_x.go"] = "package " + p.name + "\n\n// MetaA is declared in a file with parentheses in its name.\n// @immutable\ntype MetaA struct{ X int }\n\nfunc touchMetaA(m *MetaA) { m.X = 1 " + g.nextTag() + " }\n"
+		m.Files[dir+"/zz+plus.go"] = "package " + p.name + "\n\n// MetaB is declared in a file with a plus sign in its name.\n// @immutable\n// @constructor NewMetaB\ntype MetaB struct{ X int }\n\nfunc touchMetaB() { b := MetaB{} " + g.nextTag() + "; b.X++ " + g.nextTag() + " }\n"
+		if g.o.NoAnnotations {
+			for _, n := range []string{"/gen_(v1)_x.go", "/zz+plus.go"} {
+				m.Files[dir+n] = strings.ReplaceAll(m.Files[dir+n], "// @", "// ")
+			}
+		}
 		// a test file whose base name has a dot before _test.go
 		m.Files[dir+"/store.v2_test.go"] = "package " + p.name + "\n\n// DottedT is declared in a test file.\n// @immutable\n// @constructor NewDottedT\ntype DottedT struct{ X int }\n\n" +
 			"func touchDotted() {\n\tvar d DottedT " + g.nextTag() + "\n\td.X = 1 " + g.nextTag() + "\n\td.X++ " + g.nextTag() + "\n\t_ = DeclInTest{} " + g.nextTag() + "\n}\n"
